@@ -1,7 +1,6 @@
 (* C09 - Finite stimuli honour their duration contract and envelope shape.
    Property theorems only; every proof is `exact <lemma of Stim/Proofs*.v>`. *)
 From PV Require Import Stim.Model Stim.Spec Stim.Proofs Stim.ProofsC09 Stim.Cos2R.
-From Coq Require Import Reals.
 
 (* the sample count reported is start + duration (array length for fixed / repeated waveforms) *)
 Theorem C09_totals : forall g,
@@ -55,7 +54,8 @@ Proof. exact rise_rejected. Qed.
 Print Assumptions C09_rise_rejected.
 
 (* the cosine-squared window stays within [0, 1] (over the reals; the scipy windows are checked numerically) *)
-Theorem C09_cos2_unit_interval : forall m j : R, (0 <= cos2ramp_R m j <= 1)%R.
+(* cos2ramp_within_unit_interval := forall m j : R, 0 <= (sin (PI * j / m))^2 <= 1   (Stim/Cos2R.v) *)
+Theorem C09_cos2_unit_interval : cos2ramp_within_unit_interval.
 Proof. exact cos2ramp_unit_interval. Qed.
 Print Assumptions C09_cos2_unit_interval.
 
